@@ -15,7 +15,10 @@
       `if "[ZeroWidthEscape]" in style:` or a copy of another screen's entry;
    c. every `write_raw(..)` call outside output/ is one of the three reviewed
       call sites (renderer zero-width escapes, print_formatted_text's
-      ZeroWidthEscape branch, patch_stdout raw mode).
+      ZeroWidthEscape branch, patch_stdout raw mode);
+   d. every `<..>output.write(arg)` call outside output/ has a string literal,
+      `_dumb_terminal_text(..)` (which must map through Char.display_mappings),
+      or is one of the two safe-print sites.
    `scan(repo)` returns the list of problems (empty = side condition holds) and
    the inventory of classified sites; harness/c10.py calls it as well to report
    a specific violation."""
@@ -50,6 +53,16 @@ WRITE_RAW_SITES = {
     ("renderer.py", "write_raw(zero_width_escapes_row[c])", None),
     ("renderer.py", "output.write_raw(text)", "'[ZeroWidthEscape]' in style_str"),
     ("patch_stdout.py", "self._output.write_raw(text)", "self.raw"),
+}
+
+
+# `<..>output.write(arg)` call sites outside output/ and outside the renderer's
+# screen path: the argument must be a string literal, go through
+# shortcuts.prompt._dumb_terminal_text (display_mappings applied; dumb terminal),
+# or be one of the two reviewed safe-print sites (only "no ESC" is claimed there).
+SAFE_PRINT_WRITE_SITES = {
+    ("renderer.py", "output.write(text)"),           # print_formatted_text
+    ("patch_stdout.py", "self._output.write(text)"),  # StdoutProxy
 }
 
 
@@ -276,7 +289,7 @@ def scan(repo=None):
                 seg = ast.get_source_segment(src, n) or ""
                 if "data_buffer" in seg or "zero_width_escapes" in seg:
                     problems.append("%s line %d: module-level code mentions a screen buffer" % (os.path.basename(p), n.lineno))
-    ncell = sum(1 for s in sites if "zero_width" not in s[2])
+    ncell = sum(1 for s in sites if "zero_width" not in s[2] and not s[0].endswith(":write"))
     if ncell < 8:
         problems.append("only %d screen cell stores recognised (expected >= 8): the scan no longer understands the code" % ncell)
     # write_raw call sites outside output/
@@ -311,6 +324,37 @@ def scan(repo=None):
                     found.add((key[0], key[1]))
                 else:
                     problems.append("%s line %d: unreviewed raw write `%s` (enclosing test %r)" % (rel, n.lineno, _u(n), test))
+    # output.write(..) call sites outside output/
+    for p in sorted(glob.glob(root + "/**/*.py", recursive=True)):
+        rel = os.path.relpath(p, root)
+        if rel.startswith("output" + os.sep):
+            continue
+        src = open(p, encoding="utf-8").read()
+        if ".write(" not in src:
+            continue
+        for n in ast.walk(ast.parse(src)):
+            if not (isinstance(n, ast.Call) and isinstance(n.func, ast.Attribute) and n.func.attr == "write"):
+                continue
+            recv = _u(n.func.value)
+            if not (recv == "output" or recv.endswith(".output") or recv.endswith("._output")):
+                continue
+            a = n.args[0] if len(n.args) == 1 and not n.keywords else None
+            ok = a is not None and (
+                (isinstance(a, ast.Constant) and isinstance(a.value, str)) or
+                (isinstance(a, ast.Call) and isinstance(a.func, ast.Name) and a.func.id == "_dumb_terminal_text") or
+                (os.path.basename(p), _u(n)) in SAFE_PRINT_WRITE_SITES)
+            sites.append(("%s:write" % os.path.basename(p), n.lineno, _u(n).replace("\n", " ")[:100]))
+            if not ok:
+                problems.append("%s line %d: unreviewed text write `%s` (not a literal, not through _dumb_terminal_text)"
+                                % (rel, n.lineno, _u(n).replace("\n", " ")[:120]))
+    # _dumb_terminal_text must map through Char.display_mappings
+    try:
+        src = open(root + "/shortcuts/prompt.py", encoding="utf-8").read()
+        fn = [n for n in ast.parse(src).body if isinstance(n, ast.FunctionDef) and n.name == "_dumb_terminal_text"]
+        if len(fn) != 1 or "Char.display_mappings.get(c, c)" not in _u(fn[0]):
+            problems.append("shortcuts/prompt.py: _dumb_terminal_text is missing or no longer maps through Char.display_mappings.get(c, c)")
+    except OSError:
+        problems.append("shortcuts/prompt.py not found")
     return problems, sites
 
 
